@@ -20,6 +20,8 @@ DevF1 == {"F1"}
 DevF3 == {"F3"}
 DevF6 == {"F6"}
 DevAll == {"F1", "F3", "F6"}
+DevRaw == {"RAW"}
+DevEvery == {"F1", "F3", "F6", "RAW"}
 Mech == {"mech"}
 
 K_plain == {Plain}
